@@ -8,7 +8,8 @@ import (
 	"MODULEPATH/zzverif/rt"
 )
 
-var c18Universe = []string{"a.com", "*.a.com", "a.*", "*", "default", "aXa.com", "*.com", "b.a.com", "a.co*"}
+// "o*.com" and "m.*" sort after the word "default", "m.a.com" is a literal that does
+var c18Universe = []string{"a.com", "*.a.com", "a.*", "*", "default", "aXa.com", "*.com", "b.a.com", "a.co*", "o*.com", "m.*"}
 
 // refMatch: '*' stands for any character sequence, '.' only for itself (reference semantics,
 // written without regular expressions). Patterns of the universe have at most one '*'.
